@@ -125,41 +125,46 @@ func TestVerifC17Sweep(t *testing.T) {
 		}
 	}
 	// contextual (for the looked-up context, another context, both; override on/off; duplicate context IDs) over a fixed chain level
-	chainProvs := []peer.AddrInfo{{ID: pids[1]}, {ID: main}}
-	chainMDs := [][]byte{[]byte("chain"), nil}
-	for pi, provs := range provLists {
-		for mi := 0; mi < len(mdLists); mi += 3 {
-			mds := mdLists[mi]
-			for _, override := range []bool{false, true} {
-				for shape := 0; shape < 4; shape++ {
-					var ctxs []model.ContextualExtendedProviders
-					mine := model.ContextualExtendedProviders{Override: override, ContextID: "ctx", Providers: provs, Metadatas: mds}
-					other := model.ContextualExtendedProviders{Override: !override, ContextID: "other", Providers: []peer.AddrInfo{{ID: pids[2]}}, Metadatas: [][]byte{[]byte("o")}}
-					effective := &mine
-					switch shape {
-					case 0:
-						ctxs = []model.ContextualExtendedProviders{mine}
-					case 1:
-						ctxs = []model.ContextualExtendedProviders{other, mine}
-					case 2:
-						ctxs = []model.ContextualExtendedProviders{other}
-						effective = nil
-					case 3:
-						// the same context ID twice: the later entry is the one in force
-						earlier := model.ContextualExtendedProviders{Override: !override, ContextID: "ctx", Providers: []peer.AddrInfo{{ID: pids[2]}}, Metadatas: [][]byte{[]byte("earlier")}}
-						ctxs = []model.ContextualExtendedProviders{earlier, mine}
+	for _, chainLevel := range []bool{true, false} {
+		chainProvs := []peer.AddrInfo{{ID: pids[1]}, {ID: main}}
+		chainMDs := [][]byte{[]byte("chain"), nil}
+		if !chainLevel {
+			chainProvs, chainMDs = nil, nil // context-level extended providers only
+		}
+		for pi, provs := range provLists {
+			for mi := 0; mi < len(mdLists); mi += 3 {
+				mds := mdLists[mi]
+				for _, override := range []bool{false, true} {
+					for shape := 0; shape < 4; shape++ {
+						var ctxs []model.ContextualExtendedProviders
+						mine := model.ContextualExtendedProviders{Override: override, ContextID: "ctx", Providers: provs, Metadatas: mds}
+						other := model.ContextualExtendedProviders{Override: !override, ContextID: "other", Providers: []peer.AddrInfo{{ID: pids[2]}}, Metadatas: [][]byte{[]byte("o")}}
+						effective := &mine
+						switch shape {
+						case 0:
+							ctxs = []model.ContextualExtendedProviders{mine}
+						case 1:
+							ctxs = []model.ContextualExtendedProviders{other, mine}
+						case 2:
+							ctxs = []model.ContextualExtendedProviders{other}
+							effective = nil
+						case 3:
+							// the same context ID twice: the later entry is the one in force
+							earlier := model.ContextualExtendedProviders{Override: !override, ContextID: "ctx", Providers: []peer.AddrInfo{{ID: pids[2]}}, Metadatas: [][]byte{[]byte("earlier")}}
+							ctxs = []model.ContextualExtendedProviders{earlier, mine}
+						}
+						info := &model.ProviderInfo{AddrInfo: peer.AddrInfo{ID: main}, ExtendedProviders: &model.ExtendedProviders{Providers: chainProvs, Metadatas: chainMDs, Contextual: ctxs}}
+						want := []verifC17Res{{main, lookupMD}}
+						ov := false
+						if effective != nil {
+							want = verifC17Expand(want, main, lookupMD, effective.Providers, effective.Metadatas)
+							ov = effective.Override
+						}
+						if !ov {
+							want = verifC17Expand(want, main, lookupMD, chainProvs, chainMDs)
+						}
+						check(info, "ctx", want, fmt.Sprintf("contextual providers #%d metadatas #%d override=%v shape=%d", pi, mi, override, shape))
 					}
-					info := &model.ProviderInfo{AddrInfo: peer.AddrInfo{ID: main}, ExtendedProviders: &model.ExtendedProviders{Providers: chainProvs, Metadatas: chainMDs, Contextual: ctxs}}
-					want := []verifC17Res{{main, lookupMD}}
-					ov := false
-					if effective != nil {
-						want = verifC17Expand(want, main, lookupMD, effective.Providers, effective.Metadatas)
-						ov = effective.Override
-					}
-					if !ov {
-						want = verifC17Expand(want, main, lookupMD, chainProvs, chainMDs)
-					}
-					check(info, "ctx", want, fmt.Sprintf("contextual providers #%d metadatas #%d override=%v shape=%d", pi, mi, override, shape))
 				}
 			}
 		}
